@@ -28,10 +28,14 @@ META = dict(
               "mpmath re-derivation: own mass matrices, signed-mass real diagonalisation, published one-loop sums",
     text="Every accepted point of a finite lattice of MSSM on-shell inputs (tan beta, |mu|,|M1|,|M2| x all 8 sign "
          "patterns, slepton masses, A_mu; <=2 (quick) / <=3 (thorough) simultaneous deviations from 6 base points plus "
-         "the full sign x tan beta x 3-value hierarchy product) and of THDM inputs (mass and gauge basis, six Yukawa "
-         "types, single-entry and dense Delta_l/Pi_l) is compared with a >=30-digit evaluation of arXiv:1311.1775 "
+         "the full sign x tan beta x 3-value hierarchy product; SM inputs alpha(MZ), alpha(0), MW, MZ, m_mu, mt, mb, mtau "
+         "with <=2 deviations at every base point) and of THDM inputs (mass and gauge basis, six Yukawa "
+         "types, single-entry and dense Delta_l/Pi_l; SM inputs m_e, m_mu, m_tau, MW, MZ, alpha_em(MZ), mhSM with <=2 "
+         "deviations at the base configurations) is compared with a >=30-digit evaluation of arXiv:1311.1775 "
          "Eqs.(2.11a,b) resp. the generation-summed one-loop THDM expression minus the SM Higgs term, computed from the "
-         "parameters the model reports. Tolerance 1e-8 of the sum of absolute terms. Nothing is claimed off the lattice.",
+         "parameters the model reports. Tolerance 1e-8 of the sum of absolute terms. Every command is evaluated twice, in lattice order and in "
+         "reversed order in a fresh process, and the two result lines must be bitwise equal (no dependence on what was "
+         "evaluated before). Nothing is claimed off the lattice.",
     note="trusted: mpmath eigsy/svd_r/quad/log, oracle/ff_ref.py closed forms (validated by C01), the textbook mass "
          "matrices written in oracle/mssm_ref.py; the resummed muon Yukawa and the Yukawa matrices are taken from the "
          "model's getters as Lagrangian parameters (their own correctness is not part of this property)",
@@ -73,27 +77,64 @@ def deviations(base, alpha, dmax):
                 yield tuple(p), d
 
 
+# SM inputs of the MSSM points: alpha(MZ), alpha(0), MW, MZ, m_mu, mt, mb(mb), mtau; None = value of the example
+MSSM_SM_ALT = [[0.00781], [0.0073], [80.0], [91.5], [0.11, 0.1], [170.0], [4.5], [1.8]]
+# SM inputs of the THDM points: m_e, m_mu, m_tau, MW, MZ, alpha_em(MZ), mhSM; None = default of gm2calc::SM / example
+THDM_SM_ALT = [[0.00075], [0.1, 0.11], [1.9], [79.0], [92.5], [1 / 127.0], [120.0, 130.0]]
+
+
+def sm_deviations(alts, dmax):
+    """SM-input tuples (None = default) with 1..dmax entries deviating, deterministic order"""
+    n = len(alts)
+    for d in range(1, dmax + 1):
+        for dims in itertools.combinations(range(n), d):
+            for vals in itertools.product(*[alts[i] for i in dims]):
+                t = [None] * n
+                for i, v in zip(dims, vals):
+                    t[i] = v
+                yield tuple(t), d
+
+
+def sm_tokens(sm):
+    return "" if sm is None else " " + " ".join("d" if v is None else hexf(v) for v in sm)
+
+
 def mssm_points(quick):
+    """list of (q, origin, sm) ; sm = None (example's SM inputs) or an 8-tuple with None = default entries"""
     seen, out = set(), []
     bases = MSSM_BASE[:4] if quick else MSSM_BASE
     dmax = 2 if quick else 3
+
+    def add(p, s, origin, sm):
+        q = (p[0], s[0] * p[1], s[1] * p[2], s[2] * p[3], p[4], p[5], p[6])
+        if (q, sm) not in seen:
+            seen.add((q, sm))
+            out.append((q, origin, sm))
+
     for name, b in bases:
         for p, d in deviations(b, MSSM_ALPHA, dmax):
             for s in SIGNS:
-                q = (p[0], s[0] * p[1], s[1] * p[2], s[2] * p[3], p[4], p[5], p[6])
-                if q not in seen:
-                    seen.add(q)
-                    out.append((q, "%s+%d" % (name, d)))
+                add(p, s, "%s+%d" % (name, d), None)
+    # SM-input dimension: <= 2 SM deviations at every base point (all signs); thorough: additionally one SM
+    # deviation combined with every single-parameter deviation
+    for name, b in bases:
+        for sm, ds in sm_deviations(MSSM_SM_ALT, 2):
+            for s in SIGNS:
+                add(b, s, "%s+0+SM%d" % (name, ds), sm)
+        if not quick:
+            for p, d in deviations(b, MSSM_ALPHA, 1):
+                if d == 0:
+                    continue
+                for sm, ds in sm_deviations(MSSM_SM_ALT, 1):
+                    for s in SIGNS:
+                        add(p, s, "%s+1+SM1" % name, sm)
     if not quick:
         # full product signs x tan beta x 3-value hierarchies
         g3, s3 = [50.0, 300.0, 1e4], [80.0, 300.0, 1e4]
         for tb in TB:
             for am, a1, a2, ml, mr, A in itertools.product(g3, g3, g3, s3, s3, AMU):
                 for s in SIGNS:
-                    q = (tb, s[0] * am, s[1] * a1, s[2] * a2, ml, mr, A)
-                    if q not in seen:
-                        seen.add(q)
-                        out.append((q, "hierarchy"))
+                    add((tb, am, a1, a2, ml, mr, A), s, "hierarchy", None)
     return out
 
 
@@ -132,20 +173,32 @@ def _tg_alpha(b):
 
 
 def thdm_points(quick):
-    """list of (cmdline, key-tuple, scalar-config id)"""
+    """list of (cmdline, key-tuple, scalar/SM-config id)"""
     pats = PATTERNS_QUICK if quick else PATTERNS_ALL
+    pats_sm = [p for p in PATTERNS_ALL if p[0] in ("zero", "e12", "dense")]
     out, cid = [], 0
     cfgs = []
     for p, d in deviations(TM_BASE, TM_ALPHA, 2):
-        cfgs.append((0, p))
+        cfgs.append((0, p, None))
     for b in TG_BASES:
         for p, d in deviations(b, _tg_alpha(b), 1 if quick else 2):
-            cfgs.append((1, p))
+            cfgs.append((1, p, None))
+    # SM-input dimension: <= 2 SM deviations at the three base configurations; thorough: additionally one SM
+    # deviation combined with every single scalar-sector deviation
+    for basis, b, alpha in [(0, TM_BASE, TM_ALPHA)] + [(1, b, _tg_alpha(b)) for b in TG_BASES]:
+        for sm, ds in sm_deviations(THDM_SM_ALT, 2):
+            cfgs.append((basis, b, sm))
+        if not quick:
+            for p, d in deviations(b, alpha, 1):
+                if d == 0:
+                    continue
+                for sm, ds in sm_deviations(THDM_SM_ALT, 1):
+                    cfgs.append((basis, p, sm))
     seen = set()
-    for basis, p in cfgs:
-        if (basis, p) in seen:
+    for basis, p, sm in cfgs:
+        if (basis, p, sm) in seen:
             continue
-        seen.add((basis, p))
+        seen.add((basis, p, sm))
         cid += 1
         zl = p[9]
         r = list(p[:9]) + [0.0, 0.0, zl]         # zeta_u = zeta_d = 0
@@ -153,10 +206,11 @@ def thdm_points(quick):
         for typ in range(1, 7):
             if zl != 0.0 and typ != 5:
                 continue            # zeta_l only enters the aligned type
-            for pname, pm in pats:
-                line = "T %d %d %s %s %s" % (basis, typ, " ".join(hexf(v) for v in r),
-                                             " ".join(hexf(v) for v in pm), " ".join(hexf(v) for v in pm))
-                out.append((line, ("mass" if basis == 0 else "gauge", typ, pname), cid))
+            for pname, pm in (pats if sm is None else pats_sm):
+                line = "T %d %d %s %s %s%s" % (basis, typ, " ".join(hexf(v) for v in r),
+                                               " ".join(hexf(v) for v in pm), " ".join(hexf(v) for v in pm),
+                                               sm_tokens(sm))
+                out.append((line, ("mass" if basis == 0 else "gauge", typ, pname, "SM-default" if sm is None else "SM-varied"), cid))
     return out
 
 
@@ -263,11 +317,26 @@ def _work(chunk):
     return out
 
 
+def _first_diff(a, b):
+    ta, tb = a.split(), b.split()
+    for i, (x, y) in enumerate(zip(ta, tb)):
+        if x != y:
+            try:
+                return "#%d: %.17g vs %.17g" % (i, unhex(x), unhex(y))
+            except ValueError:
+                return "#%d: %s vs %s" % (i, x, y)
+    return "length %d vs %d" % (len(ta), len(tb))
+
+
 def _decode(line):
     if not line:
         return None
     tk = line.split()
     return " ".join(t if not t.startswith(("0x", "-0x")) else "%.10g" % unhex(t) for t in tk)
+
+
+def _sm_class(sm):
+    return "SM-default" if sm is None else "SM:" + "".join("x" if v is not None else "." for v in sm)
 
 
 def sign_name(q):
@@ -283,11 +352,25 @@ def run(ctx):
         raise InfraError("oracle selftest failed: %r" % (bad,))
 
     mpts = mssm_points(ctx.quick)
-    mlines = ["M " + " ".join(hexf(v) for v in q) for q, _ in mpts]
+    mlines = ["M " + " ".join(hexf(v) for v in q) + sm_tokens(sm) for q, _, sm in mpts]
     tpts = thdm_points(ctx.quick)
     tlines = [t[0] for t in tpts]
     mres = run_harness(mlines)
     tres = run_harness(tlines)
+    # history independence: the value of a case must not depend on what the process evaluated before.  The main
+    # runs go through the lattice in order (SM-default block first, SM-varied points interleaved by base point);
+    # every command is evaluated a second time in a fresh process in reversed order and compared bitwise.
+    nhist = 0
+    for kind, lines, res in (("MSSM", mlines, mres), ("THDM", tlines, tres)):
+        rev = run_harness(lines[::-1])[::-1]
+        for i, (a, b) in enumerate(zip(res, rev)):
+            if a != b:
+                nhist += 1
+                ctx.fail("%s.history-dependence" % kind,
+                         "%s: result differs between lattice order and reversed order within one process (first differing token %s)"
+                         % (_decode(lines[i]), _first_diff(a, b)),
+                         {"kind": "H", "line": lines[i], "before": lines[i + 1] if i + 1 < len(lines) else lines[i - 1]})
+    ctx.note("history_dependent_cases", nhist)
     ctx.note("mssm_lattice_points", len(mpts))
     ctx.note("thdm_lattice_points", len(tpts))
 
@@ -305,6 +388,22 @@ def run(ctx):
         curid = t[2]
     if cur:
         chunks.append(cur)
+
+    # THDM loop integrals (quadrature + antiderivative cross-check) once per distinct (kind, m_f, M_S), shared by all
+    # workers through the fork
+    trip = set()
+    for r in tres:
+        tk = r.split()
+        if tk[1] == "OK":
+            trip.update(thdm_ref.needed(parse_T(tk)[0]))
+    trip = sorted(trip)
+    ctx.note("thdm_distinct_loop_integrals", len(trip))
+    with mp.Pool(min(16, os.cpu_count() or 4)) as pool:
+        try:
+            for items in pool.imap(thdm_ref.precompute, [trip[i:i + 40] for i in range(0, len(trip), 40)]):
+                thdm_ref.preload(items)
+        except ArithmeticError as e:
+            raise InfraError("oracle failed: %s" % e)
 
     skipped = {"M": {}, "T": {}}
     checked = {"M": 0, "T": 0}
@@ -329,7 +428,8 @@ def run(ctx):
                     worst_at[kind] = mlines[idx] if kind == "M" else tlines[idx]
                 if kind == "M":
                     q = mpts[idx][0]
-                    ctx.nontrivial(("MSSM", sign_name(q), info["sig"][0], info["sig"][1], q[6] > 0, q[6] < 0))
+                    ctx.nontrivial(("MSSM", sign_name(q), info["sig"][0], info["sig"][1], q[6] > 0, q[6] < 0,
+                                    _sm_class(mpts[idx][2])))
                 else:
                     ctx.nontrivial(("THDM",) + tpts[idx][1] + info["sig"])
             if ctx.out_of_time("oracle evaluation"):
@@ -339,13 +439,14 @@ def run(ctx):
             pool.terminate()
     for kind, idx, info in fails:
         if kind == "M":
-            q, origin = mpts[idx]
-            key = "MSSM.%s:sgn(mu,M1,M2)=%s" % (info["which"], sign_name(q))
-            ctx.fail(key, "tb=%g mu=%g M1=%g M2=%g mL=%g mR=%g Amu=%g [%s]: %s"
-                     % (q + (origin, info["what"])), {"kind": "M", "line": mlines[idx]})
+            q, origin, sm = mpts[idx]
+            key = "MSSM.%s:sgn(mu,M1,M2)=%s%s" % (info["which"], sign_name(q), "" if sm is None else ":SM-varied")
+            ctx.fail(key, "tb=%g mu=%g M1=%g M2=%g mL=%g mR=%g Amu=%g [%s%s]: %s"
+                     % (q + (origin, "" if sm is None else ", SM inputs (alpha(MZ),alpha(0),MW,MZ,m_mu,mt,mb,mtau)=%r" % (sm,),
+                             info["what"])), {"kind": "M", "line": mlines[idx]})
         else:
-            b, typ, pname = tpts[idx][1]
-            key = "THDM.%s:%s-basis:type%d:%s" % (info["which"], b, typ, pname)
+            b, typ, pname, smc = tpts[idx][1]
+            key = "THDM.%s:%s-basis:type%d:%s:%s" % (info["which"], b, typ, pname, smc)
             ctx.fail(key, "%s: %s" % (_decode(tlines[idx]), info["what"]), {"kind": "T", "line": tlines[idx]})
     ctx.evals(checked["M"] + checked["T"])
     nskipM, nskipT = sum(skipped["M"].values()), sum(skipped["T"].values())
@@ -356,7 +457,9 @@ def run(ctx):
     if checked["M"] < 0.5 * len(mpts) or checked["T"] < 0.5 * len(tpts):
         if not stop:
             raise InfraError("more than half of a lattice is skipped - lattice needs fixing")
-    ctx.sample({"mssm_first": [dict(zip(("tb", "mu", "M1", "M2", "mL", "mR", "Amu"), q)) for q, _ in mpts[:3]]})
+    ctx.sample({"mssm_first": [dict(zip(("tb", "mu", "M1", "M2", "mL", "mR", "Amu"), q)) for q, _, _ in mpts[:3]]})
+    ctx.sample({"mssm_sm_varied": next((_decode(l) for l, p in zip(mlines, mpts) if p[2] is not None), None),
+                "thdm_sm_varied": next((_decode(t[0]) for t in tpts if t[1][3] == "SM-varied"), None)})
     ctx.sample({"mssm_last": dict(zip(("tb", "mu", "M1", "M2", "mL", "mR", "Amu"), mpts[-1][0]))})
     ctx.sample({"thdm_first": tlines[0], "thdm_last": tlines[-1]})
     ctx.assumptions += [
@@ -368,7 +471,8 @@ def run(ctx):
     return ctx.finish(
         "MSSM: %s base points, <=%d deviating dimensions over tan beta/|mu|/|M1|/|M2|/mL/mR/A_mu alphabets, all 8 sign "
         "patterns per point%s; THDM: mass basis <=2 deviations, gauge basis <=%d deviations from 2 base points, x 6 Yukawa "
-        "types x %d Delta_l/Pi_l patterns; distinct = (sign pattern, neutralino composition/sign pattern by mass order, "
+        "types x %d Delta_l/Pi_l patterns; SM-input dimension (MSSM 8, THDM 7 inputs, <=2 deviating) at the base points; every "
+        "command evaluated in lattice and reversed order (bitwise equal); distinct = (sign pattern, neutralino composition/sign pattern by mass order, "
         "right-smuon index, sign A_mu) resp. (basis, type, pattern, LFV couplings present, sign of result)"
         % (4 if ctx.quick else 6, 2 if ctx.quick else 3, "" if ctx.quick else " + signs x tan beta x 3^6 hierarchy product",
            1 if ctx.quick else 2, len(PATTERNS_QUICK if ctx.quick else PATTERNS_ALL)),
@@ -383,6 +487,15 @@ def replay(ctx, path):
     global _EXE
     _EXE = build.harness("mssm_ref", "plain", ["mssm_ref.cpp"])
     d = json.load(open(path))["data"]
+    if d["kind"] == "H":
+        alone = run_harness([d["line"]])[0]
+        after = run_harness([d["before"], d["line"]])[1]
+        if alone != after:
+            print("replay: %s evaluated alone and after %s differ: %s" % (_decode(d["line"]), _decode(d["before"]), _first_diff(alone, after)))
+            print("VIOLATION property=C03 replay=%s" % path)
+            return 1
+        print("replay: holds now: %s gives bitwise the same result alone and after %s" % (_decode(d["line"]), _decode(d["before"])))
+        return 0
     res = run_harness([d["line"]])[0]
     st, info = (check_M if d["kind"] == "M" else check_T)(d["line"], res)
     if st == "fail":
